@@ -8,19 +8,21 @@ from harness.common import *
 import vlib
 
 LEVEL_TEXT = ('Lean 4 theorems, for all shapes/offsets/data: extent queries = sets of pixel coordinates; product = pointwise product of '
-              'embeddings; merge = sum (also for 0-d fields at the origin); reduce terminates (fuel = number of fields), preserves the '
-              'total and yields pairwise non-overlapping fields — unconditionally for collections of 0-d fields; boundary = bounding '
-              'box (max side never below 0); public merge = sum of the two embeddings, refused iff overlap is enforced and no pixel is '
+              'embeddings; merge = sum (also for 0-d fields and (1,1) arrays at the origin); the MODEL of reduce terminates with fuel = '
+              'number of fields, is total, preserves the total and yields pairwise non-overlapping fields for every collection of '
+              'positive-shape fields (the Python _disjoint recurses once per merge: beyond ~990 merges it raises RecursionError, see '
+              'ASSUMPTIONS); a product fed into merge/reduce keeps emb a · emb b + the rest (product_then_merge/_reduce); boundary = '
+              'bounding box with the max side never below 0 (false of the pixel set for wholly negative collections: reported finding); public merge = sum of the two embeddings, refused iff overlap is enforced and no pixel is '
               'shared; public overlap = common pixel (2 fields) / reduce leaves one field carrying the total (otherwise) — their '
               'branch tests, the dispatch of __mul__, the merge test of reduce and the step of _disjoint are generated from the '
-              'source (Gen.FieldDispatch); reduce is total for every collection with at most one field on the origin pixel (all '
-              'multi-element arrays); insert adds '
+              'source (Gen.FieldDispatch) and consumed by the models; insert adds '
               'exactly the part of the embedding inside the target; the NumPy slice pairs of product and insert are in range and of '
               'equal shape. Index arithmetic is regenerated from extent.py/field.py on every run; the NumPy array plumbing is a hand '
               'model checked against the implementation on exact Gaussian-integer data, with operand snapshots (inputs byte-identical '
               'afterwards, results share no memory with operands, same call twice = same answer).')
 LEVEL_NOTE = ('Trusted: Lean kernel, py2lean subset semantics, NumPy slicing/broadcast semantics as modelled in Model/Field.lean and '
-              'Model/FieldZ.lean, generator coverage of the correspondence. Scope: two one-element fields multiply only at equal offsets (documented '
+              'Model/FieldZ.lean, NumPy same_kind casting of `out[...] += …`, the interpreter\'s recursion depth, generator coverage of the '
+              'correspondence. Scope: two one-element fields multiply only at equal offsets (documented '
               'rule, a scope cut of the literal statement: mul_scalar_scalar_sem_partial); insert places a one-element (1,1) field as '
               'one pixel, not as an infinite constant; 0-d data is accepted only into a 0-d target at offset (0,0) (fast path, what '
               'Wavefront.field does on a fresh wavefront) and refused with ValueError otherwise; 1-D targets are refused; the empty product is the object '
@@ -35,7 +37,7 @@ RULE = ('cases: extent pairs, bounding boxes (boundary) of 1..5 fields incl. who
         'inserts into 0-d and 1-D targets, reduces of 1..6 fields, public overlap of 1..6 fields, each with 0-d members, one-element fields at the '
         'origin (0-d and (1,1)), collections whose FIRST field spans the whole bounding box or with identical extents; inserts into '
         'targets 1..8 drawn by category (inside / clipped on the top, bottom, left or right side / corner or two-sided clipping / '
-        'wholly outside on each side / uniform offsets in [-9,9] / 0-d field); data = small Gaussian integers; every '
+        'wholly outside on each side / uniform offsets in [-9,9] / 0-d field; a fifth of them into float64/float32/int64/complex64 targets); data = small Gaussian integers; every '
         'mul/merge/reduce/insert is run twice on the same operand objects with byte snapshots around it. An extremes stream (4 % '
         'of quick, 5 % of thorough, a third of the failing-input search) adds: one-element/array products, merges, reduces and '
         'inserts at offsets 1e5 .. 2^40 (equal, or one or two pixels apart), reduces/overlaps of 33..70 fields (tiles sharing '
@@ -48,13 +50,30 @@ RULE = ('cases: extent pairs, bounding boxes (boundary) of 1..5 fields incl. who
         'distinct = canonical (kind, shapes, offsets) signature; non-trivial = extents overlap partially / clipping on some side / '
         'more than one group, i.e. not the all-inside-or-identity case')
 TRUSTED = ['NumPy slicing/broadcasting semantics for data[slice] * data[slice], out[slice] += data and out[...] += 0-d data '
-           '(modelled by hand in Model/Field.lean, Model/FieldZ.lean)']
+           '(modelled by hand in Model/Field.lean, Model/FieldZ.lean)',
+           'NumPy casting rule (same_kind) of the in-place add in insert: complex128/complex64 targets take every term, float targets '
+           'take the real-valued intensity term only, integer targets none (sampled and judged by the oracle, not modelled)',
+           'the Python recursion limit (default 1000 frames): _disjoint makes one recursive call per merge']
 UNPROVEN = ['product of two one-element fields at DIFFERENT offsets: the code returns the empty product (documented rule of '
             'Field.__mul__, proved in full as mul_scalar_scalar_rule), not the product of two infinite constants as the property text '
             'reads literally; that reading is false of the code there (witness example in Props/C06.lean), so '
             'mul_scalar_scalar_sem_partial (equal offsets) cannot be completed by a proof — it is a scope cut of the statement']
-ASSUMPTIONS = ['merge/reduce never raise (mergeZ_total, reduce_defined, reduceZ_defined): on the single origin pixel the merged data '
-               'is 0-d iff every member is, else a (1,1) array (mergeZ_zero_d_iff)',
+ASSUMPTIONS = ['the MODEL of merge/reduce never raises (mergeZ_total, reduce_defined, reduceZ_defined): on the single origin pixel the '
+               'merged data is 0-d iff every member is, else a (1,1) array (mergeZ_zero_d_iff). The real reduce/overlap raise '
+               'RecursionError when more than ~990 merges are needed (`_disjoint` recurses once per merge; 997 mutually overlapping '
+               'fields work from a top-level call, 998 do not): collections needing fewer merges than the recursion limit are '
+               'assumed; quick draws up to 70 fields, thorough/search add one reduce and one overlap of ~1200 mutually overlapping '
+               'fields whose documented outcome is RecursionError with the operands untouched (an answer must satisfy the property) '
+               'and one reduce of 1100 non-overlapping fields (no merge, must answer); candidate iterative _disjoint reported',
+               'insert targets: complex128 (default) and complex64 take both branches; float64/float32 targets take intensity inserts '
+               '(what Wavefront.intensity uses) and refuse field inserts, int64 targets refuse both (UFuncTypeError, target untouched) '
+               'unless the field lies wholly outside — NumPy casting, judged by the oracle, not modelled (the model is generic in the '
+               'value type)',
+               'offsets are integer-valued (list, tuple, ndarray, np.int64 or integral floats are drawn); non-integer offsets are '
+               'outside the documented interface (array_extent and insert truncate them differently)',
+               'boundary() returns the bounding box with rmax/cmax raised to at least 0: for collections with wholly negative rows or '
+               'columns this is NOT the bounding box of the pixel set (reported finding, candidate one-line patch); the oracle accepts '
+               'the exact box and the raised box, the model/theorems describe the raised box (boundary_is_bbox_general)',
                'the product of two one-element fields follows the documented rule: empty unless the offsets are equal',
                'reduce_spec / reduceZ_spec: input fields of positive shape, nothing else (reduce_disjoint / reduce_total keep the '
                'hypothesis reduce fs = out.map some for their users; it is always satisfiable: reduce_defined); the fields of a merged group occupy boundary() of the group, which reaches up to '
@@ -100,8 +119,10 @@ def generate(rng, tier):
                         'sa': a['shape'], 'oa': a['off']})
         elif t in (1, 2, 3):
             a = _field(rng, zero_d=True); b = _field(rng, zero_d=True)
-            if t in (2, 3) and rng.integers(0, 4):   # force (mostly partial) overlap
-                b['off'] = [a['off'][0] + int(rng.integers(-2, 3)), a['off'][1] + int(rng.integers(-2, 3))]
+            if rng.integers(0, 10) < 7:              # ~70 %: b placed so that the two extents share at least one pixel
+                ea = ext_of(a['shape'], a['off']); sb = b['shape'] if len(b['shape']) == 2 else [1, 1]
+                rminb = int(rng.integers(ea[0] - sb[0] + 1, ea[1] + 1)); cminb = int(rng.integers(ea[2] - sb[1] + 1, ea[3] + 1))
+                b['off'] = [rminb + sb[0] // 2, cminb + sb[1] // 2]
             if k % 20 == 13:        # composition: the product (dropped when empty, as Plane.multiply does) goes on into another call
                 nxt = ('mul', 'merge', 'reduce', 'insert')[int(rng.integers(0, 4))]
                 near = lambda: [a['off'][0] + int(rng.integers(-3, 4)), a['off'][1] + int(rng.integers(-3, 4))]
@@ -176,6 +197,15 @@ def generate(rng, tier):
             out.append(_insert_case(rng))
     # extremes stream: huge offsets, > 32 fields, long 1-D shapes (a small sample in quick/thorough, a large one in search)
     out += _extremes(rng, {'quick': n // 25, 'thorough': n // 20, 'search': n // 3}[tier], lmax=2600 if tier == 'search' else 500)
+    if tier in ('thorough', 'search'):
+        # more merges than the interpreter's default recursion limit (~1000): `_disjoint` recurses once per merge. Expected on the
+        # unchanged tree: RecursionError (documented bound, see ASSUMPTIONS); if it answers, the property must hold
+        for kind in ('reduce', 'overlap'):
+            nn = int(rng.integers(1150, 1300))
+            fs = [gi_field(rng, (2, 2), (int(rng.integers(0, 2)), int(rng.integers(0, 2)))) for _ in range(nn)]
+            out.append({'kind': kind, 'fields': fs, 'ext': 'recursion'})
+        fs = [gi_field(rng, (2, 2), (0, 3 * i)) for i in range(1100)]            # 1100 fields, none overlapping: no merge, no recursion
+        out.append({'kind': 'reduce', 'fields': fs, 'ext': 'many-disjoint'})
     _vary_offset_types(out, rng)
     if tier == 'thorough':
         out += exhaustive_extents() + exhaustive_inserts()
@@ -345,7 +375,18 @@ def _insert_case(rng):
     f = gi_field(rng, (h, w), off)
     if (h, w) == (1, 1) and rng.integers(0, 3) == 0: f['shape'] = []       # 0-d data: insert refuses it (documented scope)
     o = gi_field(rng, (S0, S1), (0, 0))
-    return {'kind': 'insert', 'field': f, 'out': o, 'weight': int(rng.integers(-2, 4)), 'intensity': bool(rng.integers(0, 2))}
+    c = {'kind': 'insert', 'field': f, 'out': o, 'weight': int(rng.integers(-2, 4)), 'intensity': bool(rng.integers(0, 2))}
+    if rng.integers(0, 5) == 0:        # target dtype other than complex128: what Wavefront.intensity uses (float64), and the refusals
+        c['tdtype'] = ('float64', 'float64', 'float32', 'int64', 'complex64')[int(rng.integers(0, 5))]
+        if c['tdtype'].startswith('float') and rng.integers(0, 3): c['intensity'] = True
+    return c
+
+def _target(c):
+    """the target array of an insert case: complex128 unless `tdtype` says otherwise (then the real part of the data, cast)"""
+    a = np_data(c['out'])
+    dt = c.get('tdtype')
+    if dt is None: return a.copy()
+    return a.astype(dt) if dt.startswith('complex') else np.real(a).astype(dt)
 
 def _det_field(shape, off, k=0):
     """deterministic Gaussian-integer data with all samples distinct and non-zero"""
@@ -463,21 +504,24 @@ def tags(c):
         if c.get('ps') and c['ps'][0] != c['ps'][1]: t.append('merge_public:pixelscale-differs')
     if k == 'overlap': t.append('overlap:n=2' if len(c['fields']) == 2 else 'overlap:n!=2')
     if k == 'insert' and len(c['field']['shape']) < 2: t.append('insert:0d-field')
+    if k == 'insert' and c.get('tdtype'): t.append('insert:target-' + c['tdtype'] + (':intensity' if c['intensity'] else ':field'))
     if c.get('ext'): t.append('extreme:' + c['ext'])
     for f in _case_fields(c):
         if f.get('ot', 'list') != 'list': t.append('offset-type:' + f['ot'])
     if k in ('reduce', 'overlap') and len(c['fields']) > 32: t.append(k + ':n>32')
+    if k in ('reduce', 'overlap') and len(c['fields']) > 1000: t.append(k + ':n>1000')
     return t
 
 # ------------------------------------------------------------------------------------------ implementation
-_OTYPES = ('list', 'tuple', 'ndarray', 'np64', 'list')
+_OTYPES = ('list', 'tuple', 'ndarray', 'np64', 'float', 'list')
 
 def _offset_as(off, ot):
     """the same integer offset in the container types callers really pass: list (default), tuple (what intersection_shift and
-    _merge_offset return), ndarray, list of np.int64"""
+    _merge_offset return), ndarray, list of np.int64, list of integral floats"""
     if ot == 'tuple': return (int(off[0]), int(off[1]))
     if ot == 'ndarray': return np.array([int(off[0]), int(off[1])])
     if ot == 'np64': return [np.int64(off[0]), np.int64(off[1])]
+    if ot == 'float': return [float(off[0]), float(off[1])]       # integral values only: non-integer offsets are outside the interface
     return [int(off[0]), int(off[1])]
 
 def _F(f, ps=None):
@@ -610,7 +654,7 @@ def impl(c):
             return {'overlap': bool(r1), 'is_bool': isinstance(r1, (bool, np.bool_)),
                     'side': {'mutated': m or _snap(Fs) != before, 'repeat_equal': bool(r1) == bool(r2)}}
         if k == 'insert':
-            out = np_data(c['out']).copy(); out0 = out.copy()
+            out = _target(c); out0 = out.copy()
             Ff = _F(c['field']); before = _snap([Ff])
             rnd = lambda x: int(round(x)) if abs(x - round(x)) < 1e-9 else float(x)   # |z**2| goes through hypot: integer up to an ulp
             def arr(a):
@@ -621,7 +665,7 @@ def impl(c):
             except Exception as e:
                 return {'exc': type(e).__name__, 'msg': str(e)[:200], 'target_untouched': bool(np.array_equal(out, out0)),
                         'side': {'mutated': _snap([Ff]) != before}}
-            res = {'out': arr(out), 'returned': arr(r), 'same_object': r is out,
+            res = {'out': arr(out), 'returned': arr(r), 'same_object': r is out, 'dtype': out.dtype.name,
                    'side': {'mutated': _snap([Ff]) != before, 'aliased': bool(np.shares_memory(out, Ff.data))}}
             # same field object into a fresh copy of the target: same increment
             out2 = out0.copy(); LF.insert(Ff, out2, intensity=c['intensity'], weight=c['weight'])
@@ -652,6 +696,7 @@ def requests(c, io):
     if k == 'merge_public':
         if c.get('ps') and c['ps'][0] != c['ps'][1]: return []          # pixelscale guard: not in the model, see compare
         return [{'op': 'field.merge_public', 'a': _zf(c['fields'][0]), 'b': _zf(c['fields'][1]), 'enforce': c['enforce']}]
+    if k in ('reduce', 'overlap') and len(c['fields']) > 200: return []   # the interpreted model scans n^2 pairs per merge
     if k == 'reduce':
         r = [{'op': 'field.reducez', 'fields': [_zf(f) for f in c['fields']]}]
         if not any(_is0d(f) for f in c['fields']):                       # the plain-array model must agree wherever it answers
@@ -659,6 +704,7 @@ def requests(c, io):
         return r
     if k == 'overlap': return [{'op': 'field.overlap', 'fields': [to_model_field(f) for f in c['fields']]}]
     if _is0d(c['field']): return []                                     # insert of 0-d data: refused by the implementation
+    if c.get('tdtype') not in (None, 'complex64'): return []           # real/integer targets: NumPy casting, judged by the oracle only
     return [{'op': 'field.insert', 'field': to_model_field(c['field']), 'out': c['out'], 'weight': c['weight'], 'intensity': c['intensity']}]
 
 def _is_one(f): return len(f['shape']) < 2 or list(f['shape']) == [1, 1]
@@ -674,6 +720,8 @@ def compare(c, io, mo):
     k = c['kind']
     if k == 'insert' and _is0d(c['field']):
         return None if io.get('exc') == 'ValueError' else 'insert of a 0-d field: implementation did not refuse with ValueError'
+    if k == 'insert' and c.get('tdtype') not in (None, 'complex64'): return None
+    if k in ('reduce', 'overlap') and not mo: return None               # > 200 fields: too slow for the interpreted model, oracle only
     if k == 'insert_nd': return None                                   # outside the model (2-D targets only); judged by the oracle
     if k == 'merge_public' and not mo:
         return None if io.get('exc') == 'ValueError' else 'merge of fields with different pixelscale: implementation did not refuse with ValueError'
@@ -723,6 +771,8 @@ def compare(c, io, mo):
     return None
 
 # ------------------------------------------------------------------------------------------ oracle (real code only)
+_RECURSION_BOUND = 900      # merges; the interpreter's default recursion limit is 1000 frames, some are used by the callers
+
 def _side(k, io):
     """operands byte-identical afterwards, result shares no memory with an operand, same call twice = same answer"""
     sd = io.get('side') or {}
@@ -844,10 +894,16 @@ def oracle(c, io):
         if 'exc' in io: return f"boundary raised {io['exc']}: {io.get('msg')}"
         es = [ext_of(f['shape'], f['off']) for f in c['fields']]
         px = [(r, q) for e in es for r in (e[0], e[1]) for q in (e[2], e[3])]
-        # bounding box of the occupied pixels; documented caveat (boundary_is_bbox_general): rmax/cmax never below 0
-        want = [min(p[0] for p in px), max(0, max(p[0] for p in px)), min(p[1] for p in px), max(0, max(p[1] for p in px))]
-        return None if io['extent'] == want else f"boundary {io['extent']} is not the bounding box {want} (max side raised to 0)"
+        # bounding box of the occupied pixels (the property's clause); the unchanged implementation never returns rmax/cmax below 0
+        # (boundary_is_bbox_general; reported as a finding) — that box is accepted too, anything else is wrong
+        exact = [min(p[0] for p in px), max(p[0] for p in px), min(p[1] for p in px), max(p[1] for p in px)]
+        raised = [exact[0], max(0, exact[1]), exact[2], max(0, exact[3])]
+        if io['extent'] in (exact, raised): return None
+        return f"boundary {io['extent']} is not the bounding box {exact} of the fields' pixels (nor that box with the max side raised to 0)"
     if k == 'overlap':
+        if io.get('exc') == 'RecursionError' and len(c['fields']) != 2 and \
+                len(c['fields']) - len(_ref_groups([ext_of(f['shape'], f['off']) for f in c['fields']])) > _RECURSION_BOUND:
+            return None      # documented bound (ASSUMPTIONS): `_disjoint` recurses once per merge
         if 'exc' in io: return f"overlap raised {io['exc']}: {io.get('msg')}"
         if not io['is_bool']: return 'overlap did not return a bool'
         es = [ext_of(f['shape'], f['off']) for f in c['fields']]
@@ -885,6 +941,8 @@ def oracle(c, io):
                 return None if io.get('exc') == 'ValueError' else 'merge of fields with different pixelscale was not refused'
             if c['enforce'] and not _overlap(es[0], es[1]):
                 return None if io.get('exc') == 'ValueError' else 'merge(enforce_overlap=True) of non-overlapping fields was not refused'
+        if k == 'reduce' and io.get('exc') == 'RecursionError' and len(fs) - len(_ref_groups(es)) > _RECURSION_BOUND:
+            return None      # documented bound (ASSUMPTIONS): `_disjoint` recurses once per merge; operands were checked untouched above
         if 'exc' in io: return f"{k} raised {io['exc']}: {io.get('msg')}"     # _merge never refuses (also (1,1) arrays at the origin)
         box = box_of([fs, io['fields']])
         if not np.array_equal(canvas(io['fields'], box), canvas(fs, box)): return f'{k} changed the total field'
@@ -903,14 +961,24 @@ def oracle(c, io):
         # documented scope: insert cannot place 0-d data (it has no shape to index); it must refuse and leave the target alone
         if io.get('exc') != 'ValueError': return 'insert of a 0-d field did not refuse with ValueError'
         return None if io.get('target_untouched') else 'refused insert modified the target'
+    dt = c.get('tdtype')
+    if dt not in (None, 'complex64'):
+        # NumPy casting of `out[...] += …` (same_kind): a real target takes the real-valued intensity term, refuses the complex field
+        # term; an integer target refuses both — unless nothing is added at all (field wholly outside: early return)
+        hits = _overlap(ext_of(f['shape'], f['off']), ext_of(o['shape'], (0, 0)))
+        if hits and (dt.startswith('int') or not c['intensity']):
+            if 'exc' not in io: return f'insert of a {"intensity" if c["intensity"] else "complex field"} term into a {dt} target answered instead of refusing'
+            if io['exc'] not in ('UFuncTypeError', 'TypeError'): return f"insert into a {dt} target raised {io['exc']}: {io.get('msg')}"
+            return None if io.get('target_untouched') else 'refused insert modified the target'
     if 'exc' in io: return f"insert raised {io['exc']}: {io.get('msg')}"
     if not io['same_object']: return 'insert did not return the array it was given'
     if io['returned'] != io['out']: return 'returned array differs from the target array'
+    if dt is not None and io.get('dtype') != dt: return f"target dtype changed from {dt} to {io.get('dtype')}"
     S0, S1 = o['shape']
     box = (-(S0 // 2), -(S0 // 2) + S0 - 1, -(S1 // 2), -(S1 // 2) + S1 - 1)
     e = canvas([f], box)
     add = ((e.real ** 2 + e.imag ** 2) if c['intensity'] else e) * c['weight']
-    want = np_data(o) + add
+    want = (np_data(o) if dt in (None, 'complex64') else np.real(np_data(o))) + add
     got = np_data(io['out'])          # the array that was passed in, not the return value
     if not np.array_equal(got, want): return 'insert did not add exactly the part of the embedding inside the array (target array after the call)'
     return None
